@@ -1920,8 +1920,8 @@ class Interp2(Interp):
         if fi in self.stack or len(self.stack) >= self.MAX_DEPTH:
             return self.top(f"call depth/recursion at {fi.qualname}")
         a = fi.node.args
-        if any(isinstance(d, ast.Name) and d.id in ("property", "classmethod") for d in fi.node.decorator_list):
-            return self.top(f"{fi.qualname} is not a plain function")
+        if not plain_function(fi.node):
+            return self.top(f"{fi.qualname} is decorated/a generator: not inlined")
         pos = [x.arg for x in a.posonlyargs + a.args]
         is_static = any((isinstance(d, ast.Name) and d.id == "staticmethod") for d in fi.node.decorator_list)
         if fi.cls is not None and not is_static:
@@ -2417,6 +2417,22 @@ class _StarOpaque:
     pass
 
 
+PLAIN_DECORATORS = {"staticmethod", "override", "lru_cache", "cache", "functools.lru_cache", "functools.cache", "typing.override"}
+
+
+def plain_function(node):
+    """only decorators that do not change what the function returns; not a generator."""
+    for d in node.decorator_list:
+        if isinstance(d, ast.Call):
+            d = d.func
+        if (ast.unparse(d) if isinstance(d, (ast.Name, ast.Attribute)) else "?") not in PLAIN_DECORATORS:
+            return False
+    for n in ast.walk(node):
+        if isinstance(n, (ast.Yield, ast.YieldFrom)):
+            return False
+    return True
+
+
 def _axes_ints(v):
     if isinstance(v, PyList):
         return [to_int(i) for i in v.items]
@@ -2616,8 +2632,10 @@ def _analyse(ix, cls):
     if fi is None:
         return MatrixInfo(cls, None, why="no compute_matrix below the operator base classes")
     info = MatrixInfo(cls, fi)
-    if not any(isinstance(d, ast.Name) and d.id == "staticmethod" for d in fi.node.decorator_list):
-        info.why = "compute_matrix is not a staticmethod"
+    if not any(isinstance(d, ast.Name) and d.id == "staticmethod" for d in fi.node.decorator_list) or not plain_function(fi.node):
+        info.params = matrix_params(cls, fi)
+        info.support = {p: Support(None, False) for p in info.params}
+        info.why = "Top: compute_matrix is not a plain staticmethod"
         return info
     info.params = matrix_params(cls, fi)
     top = lambda why: {p: Support(None, False) for p in info.params}  # noqa: E731
